@@ -261,7 +261,8 @@ func c08Seeds(cfg *rtr.Cfg, key []byte, now uint32) []c08Seed {
 			inner.SetUDP(40002, 40001, []byte("inner"))
 			inners["udp-ext"], _ = inner.Serialize()
 			for _, typ := range []uint8{1, 2, 4, 5, 6, 100} {
-				for n, q := range inners {
+				for _, n := range []string{"udp", "echo", "traceroute", "scmp-error", "udp-ext"} {
+					q := inners[n]
 					if (int(typ)+len(n)+ci)%3 != 0 && typ != 4 {
 						continue
 					}
@@ -698,7 +699,7 @@ func TestC08(t *testing.T) {
 		"packets, one-hop, BFD, empty path, STUN binding requests) x mutation alphabet: every byte of the first 160 (and the L4/quote region) " +
 		"x {0,1,0x7f,0x80,0xff, 8 bit flips}; truncation to every length; HdrLen all 256 (+- matching PayloadLen); PayloadLen " +
 		"{0,1,len-1,len+1,0xffff}; DT/DL/ST/SL all 256; extension NextHdr/ExtLen/option type/length all 256; PathType x NextHdr all 65536; " +
-		"path meta word (structured subset quick, all 2^26 thorough); pairs of structural single-byte mutations (bound 2); STUN: every byte x " +
+		"path meta word (structured subset of 4x64x7^3x2 words on 4 seeds and all ingress kinds; thorough adds all 2^26 words on each of the 4 seeds); pairs of structural single-byte mutations (bound 2); STUN: every byte x " +
 		"same values, every truncation, first attribute type/length all 65536 values, extra attributes. Structural families on all three ingress kinds " +
 		"(external, sibling, internal), byte sweep on the seed's own ingress; SCMP authentication off/on. Every input is distinct by construction"
 	k := &c08Run{r: r, oc: map[string]int64{}}
@@ -816,7 +817,7 @@ func TestC08(t *testing.T) {
 		}
 		metaSeeds := pick("up2+core2+down2@3 in=1 eg=3/scion", "up2+core2@1 in=3 eg=1/epic", "core3@1 in=1 eg=6/scion", "up2+down2/peer@1 in=3 eg=5/scion")
 		if mc.Thorough() {
-			for _, s := range metaSeeds[:2] {
+			for _, s := range metaSeeds {
 				for hi := 0; hi < 256; hi++ { // top byte = CurrINF|CurrHF
 					jobs = append(jobs, job{s, "meta-full", hi})
 				}
@@ -921,7 +922,8 @@ func TestC08(t *testing.T) {
 		extras := map[string][]byte{"plain": nil, "software-attr": {0x80, 0x22, 0, 5, 'v', 'e', 'r', 'i', 'f', 0, 0, 0},
 			"two-attrs": {0, 6, 0, 3, 'a', ':', 'b', 0, 0x80, 0x22, 0, 0}}
 		for ti, tx := range txs {
-			for n, ex := range extras {
+			for _, n := range []string{"plain", "software-attr", "two-attrs"} {
+				ex := extras[n]
 				for _, src := range []string{"10.0.0.100:31000", "[fd00::77]:40000", "[::ffff:10.0.0.9]:1"} {
 					stuns = append(stuns, c08Seed{name: fmt.Sprintf("stun-%s-tx%d-from-%s", n, ti, src), raw: c08StunRequest(tx, ex),
 						in: rtr.Ingress{Kind: 0, SrcUD: src}, stun: true})
